@@ -33,6 +33,15 @@ func genRev(r *rand.Rand, n int, tier string, out *bufio.Writer) {
 			head += "Cookie: " + strings.Repeat("c", pick(r, []int{3000, 6000, 9000})) + "\r\n"
 		}
 		head += "\r\n"
+		// line ends of the protocol header: all CRLF (mostly), all LF, or mixed
+		switch r.Intn(8) {
+		case 0:
+			head = strings.ReplaceAll(head, "\r\n", "\n")
+		case 1: // the last header line ends in a bare LF, the empty line is CRLF
+			head = head[:len(head)-4] + "\n\r\n"
+		case 2: // header lines CRLF, the empty line a bare LF
+			head = head[:len(head)-2] + "\n"
+		}
 		payload := genData(r, pick(r, []int{0, 20, 500}))
 		total := len(head) + len(payload)
 		o.thr = pick(r, []int{1, len(head), total / 2, total, total + 1, 1 << 16})
